@@ -246,6 +246,14 @@ def xmi_corruptions(data):
             es[i].attrib[a] = 'notanumber' if kind != 'int*' else es[i].attrib[a] + ' x1'
             yield 'wrong-type', f'attribute {a} of element {i} set to a non-{kind}', ser(r)
         if a in REFS:
+            # a `prefix:Type` qualifier (as save writes before the URI of a typed reference) whose URI token was
+            # cut off: at the end, in the middle, alone
+            toks0 = els[i].attrib[a].split()
+            for cut in (toks0 + ['lib:Node'], toks0[:1] + ['lib:Node'] + toks0[1:] + ['lib:Leaf'], ['lib:Node'],
+                        ['lib:Node', 'lib:Node'] + toks0):
+                r, es = fresh()
+                es[i].attrib[a] = ' '.join(cut)
+                yield 'cut-qualified-ref', f'reference {a} of element {i} = {" ".join(cut)[:60]!r}', ser(r)
             for bad in ['//@kids.99', '//@nosuch.0', 'no-such-id', '/7', '//@kids.Spezial', '//sub/@kids.0'] \
                     + ([thing_frag] if thing_frag else []):
                 r, es = fresh()
@@ -1290,7 +1298,7 @@ def registry_scenario(env, model, rng, timeout, mapped=False):
 # a ghost link after one of those is NOT a known finding.  nested:* = the corrupted document is the referenced one.
 LATE_FAILURE = {
     # XMI: references written as attributes and hrefs are linked after the whole tree was decoded
-    'xmi': {'break-ref', 'retarget-ref', 'break-href'},
+    'xmi': {'break-ref', 'retarget-ref', 'break-href', 'cut-qualified-ref'},
     # JSON: every reference (a {"$ref": ..} stub) is linked in the final phase of load
     'json': {'wrong-type', 'rename-reference', 'break-ref', 'break-href', 'retarget-ref', 'remove-element', 'dup-id'},
 }
@@ -1408,6 +1416,17 @@ def run(ctx, out):
         if thorough:
             for fmt in ('xmi', 'json'):
                 combos.append((si, spec, fmt, (si + (fmt == 'json')) % 2 == 0))
+    # a directed document first: its FIRST child holds nothing but a bidirectional reference into the other,
+    # already loaded, resource; the siblings after it carry the corruptions ("corrupted further down")
+    def _o(res, name, **kw):
+        o = {'cls': 'Node', 'parent': None, 'via': None, 'res': res, 'attrs': {'name': name, 'n': 1}, 'peer': None,
+             'friends': [], 'mate': None, 'things': 0}
+        o.update(kw)
+        return o
+    directed = {'objs': [_o('main', 'r'), _o('main', 'k1', parent=0, via='kids', friends=[4]),
+                         _o('main', 'k2', parent=0, via='kids'), _o('main', 'k3', parent=0, via='kids', mate=4),
+                         _o('ext', 'e')]}
+    combos = [('directed', directed, 'json', False), ('directed', directed, 'xmi', False)] + combos
     for si, spec, fmt, use_uuid in combos:
         if cut:
             break
